@@ -42,7 +42,7 @@ EXPECTED_PROBES = ["iter_resumed_after_deeper_build", "iter_resumed_after_clear_
 def plan(tier):
     if tier == "quick":
         return {"runs": 24000, "chunk": 50, "wall_cap": 150}
-    return {"runs": 400000, "chunk": 400, "wall_cap": 3000}
+    return {"runs": 400000, "chunk": 400, "wall_cap": 900}
 
 
 def prepare(tier):  # pylint: disable=unused-argument
